@@ -25,6 +25,14 @@ impl Display for Elapsed {
 
 impl Error for Elapsed {}
 
+/// `now + duration`, or an instant about 30 years away when that is not
+/// representable (`Duration::MAX` as "no timeout").
+fn deadline_after(duration: Duration) -> Instant {
+    let now = Instant::now();
+    now.checked_add(duration)
+        .unwrap_or_else(|| now + Duration::from_secs(86400 * 365 * 30))
+}
+
 /// Waits until `duration` has elapsed.
 ///
 /// Equivalent to [`sleep_until(Instant::now() + duration)`](sleep_until). An
@@ -51,7 +59,7 @@ impl Error for Elapsed {}
 ///
 /// Panic if not running under a `Runtime`.
 pub fn sleep(duration: Duration) -> Sleep {
-    Sleep::new(Instant::now() + duration)
+    Sleep::new(deadline_after(duration))
 }
 
 /// Waits until `deadline` is reached.
@@ -90,7 +98,7 @@ pub fn sleep_until(deadline: Instant) -> Sleep {
 ///
 /// Panic if not running under a `Runtime`.
 pub fn timeout<F: Future>(duration: Duration, future: F) -> Timeout<F> {
-    Timeout::new(Instant::now() + duration, future)
+    Timeout::new(deadline_after(duration), future)
 }
 
 /// Require a [`Future`] to complete before the specified instant in time.
